@@ -12,7 +12,7 @@ from lib import vlib, render
 from props import c02
 
 LEVEL = "model_checking"
-CFGS = ["compact", "pretty:default:semi", "pretty:tab:nosemi"]
+CFGS = ["compact", "pretty:default:semi", "pretty:tab:nosemi", "compact+map", "pretty:4:semi+map"]
 
 
 def validate(ctx, items):
